@@ -69,7 +69,6 @@ for k in ["tensor.(*Dense).Concat(t)", "tensor.(*Dense).Hstack(t)", "tensor.(*De
 finding(["C18"], "P2", "tensor.(*Dense).Norm(t)", "Norm (unordered / Frobenius / 2-norm of a vector) swaps a flat access pattern into its operand for the duration of a Dot call: eight goroutines calling t.Norm() on one shared tensor get wrong norms, data races, and leave t with shape (0)",
         "writes AP.fin, AP.o, AP.shape, AP.strides, AP.Δ, Dense.AP, Dense.old, Dense.transposeWith", 48)
 
-finding(["C08","C07"], "EC", "tensor.(StdEng).prepReduce#Reshape1", "prepReduce drops the error of reuse.Reshape(newShape...): a reuse tensor that cannot be reshaped (non-contiguous view) is reduced into with its old shape", "dropped Reshape", 23)
 
 finding(["C16"], "S11", "tensor.(*AP).setDataOrder", "setDataOrder (called by handleFuncOpts on the reuse tensor) flips the column-major bit and keeps the row-major strides: Add(colA, colB, WithReuse(rowR)) returns flag ColMajor with strides [3 1]; At(0,1)=13 instead of 11", "flag flipped, strides kept", 40)
 
@@ -102,6 +101,7 @@ finding(["C16"], "L3", "tensor.Copy@copyDense(%dt, %ts) ⊨ %ts.DataOrder().HasS
 finding(["C16"], "L4", "tensor.ToMat64@mat.NewDense( ?$t.DataOrder().IsColMajor()", "ToMat64 hands column-major storage to the row-major mat.Dense", "without a test of $t.DataOrder().IsColMajor()", 18)
 
 FIXED = [
+ {"property":"C08","commit":"865b98b","rule":"EC","key":"tensor.(StdEng).prepReduce#Reshape1","what":"fixed: property=C08 865b98b prepReduce dropped the error of reuse.Reshape(newShape...): a reuse tensor that cannot be reshaped (non-contiguous view) was reduced into with its old shape (DESIGN finding 23)"},
  {"property":"C19","commit":"6e5ad4a","rule":"T2","key":"tensor.reuseCheckShape#reuse","what":"fixed: property=C19 6e5ad4a reuseCheckShape returned a reuse tensor's transposeWith slice to the ints pool and left the field pointing at it: the slice was returned a second time by ReturnTensor/UT (DESIGN finding 12)"},
  {"property":"C19","commit":"f9f7dff","rule":"O3","key":"tensor.(*Dense).TensorMul(axesA), tensor.(*Dense).TensorMul(axesB), tensor.Contract(aAxes), tensor.Contract(bAxes)","what":"fixed: property=C19 f9f7dff TensorMul normalised negative axes in place in the caller's slices (and only after indexing the shape with them, so a negative axis panicked): axes are now resolved on copies before use (DESIGN finding 11)"},
  {"property":"C09","commit":"51ec201","rule":"L1","key":"tensor.(StdEng).checkThreeFloatComplexTensors@return  ⊨ contiguous operands; tensor.(StdEng).checkTwoFloatComplexTensors","what":"fixed: property=C09 51ec201 the BLAS gateways multiplied the raw window of a non-contiguous view: a[0:2,0:2] x I returned [0 1 2 3] (the first four window elements); the shared operand checks now refuse views with gaps (DESIGN finding 15)"},
